@@ -297,7 +297,8 @@ def popInner (s : State) (maxBytes window : Nat) (newlyBlocked : Bool) : State Ã
           let s := { s with writeOffset := s.writeOffset + f.data.length }
           let more := if s.resetErr.isSome && s.writeOffset â‰¥ ro then false else more
           let blocked := if f.data.length == maxDataLen && newlyBlocked then some s.writeOffset else none
-          let fin := s.finishedWriting && s.dataForWriting.isEmpty && s.nextFrame.isNone && !s.finSent
+          -- no FIN once the stream is being reset: it ends with RESET_STREAM(_AT), not cleanly (a7958da)
+          let fin := s.finishedWriting && s.dataForWriting.isEmpty && s.nextFrame.isNone && !s.finSent && s.resetErr.isNone
           let s := if fin then { s with finSent := true } else s
           (s, { frame := some { f with fin := fin }, blocked := blocked, hasMore := more })
 
@@ -356,7 +357,7 @@ def lost (s : State) (i : Nat) : State Ã— Ev Ã— AckRes :=
           (r.1, evDone r.2, .ok)
         else
           let f := if s.resetErr.isSome && ro > 0 && f.offset + f.data.length > ro
-                   then { f with data := f.data.take (ro - f.offset) } else f
+                   then { f with data := f.data.take (ro - f.offset), fin := false } else f
           let f := { f with dataLenPresent := true }
           ({ s with retransQ := s.retransQ ++ [f] }, { hasData := 1 }, .ok)
 
@@ -364,6 +365,13 @@ def lost (s : State) (i : Nat) : State Ã— Ev Ã— AckRes :=
 def trimFrame (ro : Nat) (f : Frame) : Option Frame :=
   if f.offset â‰¥ ro then none
   else if f.offset + f.data.length > ro then some { f with data := f.data.take (ro - f.offset) }
+  else some f
+
+/-- the same for a frame queued for retransmission: a frame that is cut no longer ends at the final size,
+    so it loses its FIN (the stream ends with RESET_STREAM_AT) -/
+def trimFrameQ (ro : Nat) (f : Frame) : Option Frame :=
+  if f.offset â‰¥ ro then none
+  else if f.offset + f.data.length > ro then some { f with data := f.data.take (ro - f.offset), fin := false }
   else some f
 
 /-- `CancelWrite` -/
@@ -378,7 +386,7 @@ def cancelWrite (s : State) (code : Nat) : State Ã— Ev :=
     ({ s with cancellationFlagged := true,
               resetErr := some (code, false),
               numOutstanding := if ro == 0 then 0 else s.numOutstanding,
-              retransQ := if ro == 0 then [] else s.retransQ.filterMap (trimFrame ro),
+              retransQ := if ro == 0 then [] else s.retransQ.filterMap (trimFrameQ ro),
               nextFrame := if ro == 0 then none else s.nextFrame.bind (trimFrame ro),
               queuedReset := some { finalSize := max s.writeOffset ro, code := code, reliableSize := ro },
               signal := true },
